@@ -132,6 +132,13 @@ def run (op : String) (a : Json) : Option (Except String Json) :=
         ("hyps", jObj [("wf", jBool (wf W v)), ("dom", jBool (domOK W v)), ("renders", jBool (renders W v)), ("nesting", jBool (nestingOK W v)),
                        ("reprs", jBool (reprsAgree v))]),
         ("imports", jList (fun p => Json.arr #[jStr p.1, jStr p.2]) (importsEnv W v))])
+  | "c18.seq" => some do
+      -- the model is stateless: each render is what a fresh serializer gives
+      let W ← getWorld a
+      let vs ← (← getArr a "vals").mapM getVal
+      pure <| ok (jList (fun v => match sourceE W v cs!"obj" with
+        | .ok t => jStr t
+        | .error e => jStr (cs!"RAISES:" ++ e.name)) vs)
   | "c18.dq" => some do
       let s ← getStr a "s"
       pure <| match decodeDq .normal s with
